@@ -97,7 +97,13 @@ static bool GetTimeoutFromString(const char *input, std::chrono::system_clock::d
 
   for (; *input && std::isdigit(*input); ++input)
   {
-    result = result * 10 + (*input - '0');
+    const int digit = *input - '0';
+    if (result > ((std::numeric_limits<std::chrono::system_clock::duration::rep>::max)() - digit) / 10)
+    {
+      // Too many digits: the value does not fit, reject instead of overflowing.
+      return false;
+    }
+    result = result * 10 + digit;
   }
 
   if (result == 0)
